@@ -17,5 +17,12 @@ for n in [-1, 0, 1, 2, 15, 28, 29, 30, 31, 32, 37]:
                   functions=["edwards25519.(*point).Embed"], bound="data length %s, arbitrary content and stream, at most 2 attempts (stated assumption)" % ("nil" if n < 0 else n),
                   tiers=(["quick", "thorough"] if n in (-1, 0, 1, 29, 30) else ["thorough"]),
                   mutants=[dict(id="C17a", file="group/edwards25519/point.go", old="\t\tvar Q point\n\t\tQ.Mul(primeOrderScalar, P)\n\t\tif Q.Equal(nullPoint) {\n\t\t\treturn P // success\n\t\t}", new="\t\treturn P")] if n == 1 else []))
+for xl, dl in [(0, 0), (1, 1), (1, 5), (2, 0), (2, 1), (2, 3), (3, 2), (3, 30), (16, 15), (16, 20), (31, 30), (32, 0), (32, 30), (32, 31), (32, 255), (20, 40)]:
+    if xl == 0 and dl != 0:
+        continue
+    H.append(dict(name="p256.Data-xlen%d-lenbyte%d" % (xl, dl), pkg="./group/p256", files=["harness/C17/p256.go"], entry="HarnessP256Data", mode="int", params={"p0": xl, "p1": dl}, validate=3, unwind=80,
+                  stubs=["crypto/elliptic curve -> stub (Data does not use it)", "math/big.Int as mathematical integers; Bytes() has the length determined by the value's interval"],
+                  functions=["p256.(*curvePoint).Data", "p256.(*curvePoint).EmbedLen", "p256.(*curve).coordLen"], bound="x of exactly %d bytes (arbitrary content), length byte %d" % (xl, dl),
+                  tiers=(["quick", "thorough"] if (xl, dl) in ((0, 0), (1, 5), (2, 3), (3, 30), (32, 30), (32, 31)) else ["thorough"])))
 json.dump(dict(property="C17", harnesses=H), open(os.path.join(os.path.dirname(__file__), "..", "specs", "C17.json"), "w"), indent=1)
 print(len(H))
